@@ -27,13 +27,22 @@
    deviations narrowly (an input whose cleaned path leaves its base directory /
    an input that resolves into .uploads). *)
 EXTENDS Integers, Sequences, FiniteSets, TLC, Json
-CONSTANTS B, Dec, Keys, Uids, Srcs, DKeySets, Prefixes, Alphabet, MaxLen, MaxOps
+CONSTANTS B, Dec, Dec2, Keys, Uids, Srcs, DKeySets, Prefixes, Alphabet, MaxLen, MaxOps
 VARIABLES hist
 vars == <<hist>>
 
 DecTok(t) == IF t \in DOMAIN Dec THEN Dec[t] ELSE <<t>>
 RECURSIVE DecSeq(_)
 DecSeq(s) == IF s = <<>> THEN <<>> ELSE DecTok(Head(s)) \o DecSeq(Tail(s))
+(* a SECOND decoding: Dec2 maps a once-decoded segment that still contains the literal text of a percent
+   escape ("%2e%2e", sent by the client as %252e%252e) to what a further URL-decoding makes of it. The
+   gateway owes such a name no second decoding: it is a literal name inside the bucket. Only handlers that
+   paste a decoded name into a filer URL without re-escaping it (copy destination and source, the upload id
+   of part uploads) let the filer decode it again. *)
+Dec2Tok(t) == IF t \in DOMAIN Dec2 THEN Dec2[t] ELSE <<t>>
+RECURSIVE Flat2(_)
+Flat2(s) == IF s = <<>> THEN <<>> ELSE Dec2Tok(Head(s)) \o Flat2(Tail(s))
+DecSeq2(s) == Flat2(DecSeq(s))
 RECURSIVE CleanStack(_, _)
 CleanStack(st, rest) ==
   IF rest = <<>> THEN st
@@ -74,6 +83,13 @@ EscK(e) == UsesKey(e.route) /\ ~Under(BRoot, KeyPath(e.ktok))
 EscU(e) == UsesUid(e.route) /\ ~Under(UpRoot, UidPath(e.utok))
 EscS(e) == UsesSrc(e.route) /\ (SrcB(e.stok) = "" \/ ~Under(<<"buckets", SrcB(e.stok)>>, SrcPath(e.stok)))
 EscD(e) == e.route = "DeleteMultipleObjects" /\ \E i \in 1..Len(e.dtok) : ~Under(BRoot, DKeyPath(e.dtok[i]))
+(* the same for the places where the handler pastes the decoded text into a filer URL unescaped *)
+SrcPlain2(s) == LET d == DecSeq2(s) IN IF d # <<>> /\ Head(d) = "" THEN Tail(d) ELSE d
+SrcB2(s) == LET d == SrcPlain2(s) IN IF d # <<>> /\ Head(d) \notin {"..", ".", ""} THEN Head(d) ELSE ""
+EscK2(e) == e.route = "CopyObject" /\ ~Under(BRoot, Clean(BRoot \o DecSeq2(e.ktok)))
+EscS2(e) == UsesSrc(e.route) /\ (SrcB2(e.stok) = "" \/ ~Under(<<"buckets", SrcB2(e.stok)>>, Clean(<<"buckets">> \o SrcPlain2(e.stok))))
+EscU2(e) == e.route \in {"PutObjectPart", "CopyObjectPart"} /\ ~Under(UpRoot, Clean(UpRoot \o Flat2(e.utok)))
+Esc2(e) == EscK2(e) \/ EscS2(e) \/ EscU2(e)
 (* a list prefix is a key prefix: the gateway splits it into directory + name prefix and hands the
    directory to the filer (ListEntries is literal, but the empty-folder purge that a delimiter listing
    performs deletes through the cleaning DeleteEntry) *)
@@ -105,14 +121,14 @@ DevUpl == "C29-uploads-addressable"
 DevIds == {DevHttp, DevGrpc, DevUpl}
 Explained(e, t, D) ==
   \/ Contained(e, t) /\ UploadsOK(e, t)
-  \/ DevHttp \in D /\ Esc(e) /\ t.via = "http" /\ t.m \in {"GET", "HEAD"}
+  \/ DevHttp \in D /\ (Esc(e) \/ Esc2(e)) /\ t.via = "http" /\ t.m \in {"GET", "HEAD"}
   \/ DevGrpc \in D /\ Esc(e) /\ t.via = "grpc"
        /\ t.m \in {"LookupDirectoryEntry", "DeleteEntry", "UpdateEntry.find", "UpdateEntry"}
   \/ DevUpl \in D /\ UploadsAddr(e) /\ Contained(e, t)
 Judge(e, D) ==
   /\ \A t \in Eff(e) : Explained(e, t, D)
   /\ e.outch # <<>> => (DevGrpc \in D /\ Esc(e))
-  /\ e.leak => (DevHttp \in D /\ Esc(e))
+  /\ e.leak => (DevHttp \in D /\ (Esc(e) \/ Esc2(e)))
 StrictOK(e) == Judge(e, {})
 
 (* ---------------- generator ---------------- *)
@@ -149,6 +165,14 @@ EscNeedsDotDot == \A e \in Reqs :
   /\ EscS(e) => DotDotIn(DecSeq(e.stok)) \/ SrcB(e.stok) = ""
   /\ EscD(e) => \E i \in 1..Len(e.dtok) : DotDotIn(e.dtok[i])
   /\ EscP(e) => DotDotIn(DecSeq(e.ptok))
+  /\ EscK2(e) => DotDotIn(DecSeq2(e.ktok))
+  /\ EscS2(e) => DotDotIn(DecSeq2(e.stok)) \/ SrcB2(e.stok) = ""
+  /\ EscU2(e) => DotDotIn(Flat2(e.utok))
+(* a key whose segments merely CONTAIN the text of a percent escape is an ordinary name for every route
+   that escapes it again: no deviation's precondition holds for it *)
+LiteralEscapeIsOrdinary == \A e \in Reqs :
+  (UsesKey(e.route) /\ e.route # "CopyObject" /\ ~DotDotIn(DecSeq(e.ktok)) /\ e.utok = DefU /\ e.stok = DefS)
+     => ~Esc(e) /\ ~Esc2(e)
 CleanSane == \A e \in Reqs : LET p == KeyPath(e.ktok) IN
   /\ Range(p) \cap {"..", ".", ""} = {}
   /\ Clean(p) = p
